@@ -143,6 +143,236 @@ theorem runave_silent_until_full (length : Nat) (s : RunAve ℝ) (x : ℝ) (hs :
     (hh : s.hist.length + 1 < length) : (runAveStep length none s x).2 = none := by
   rw [runAveStep_started length none s x hs, if_neg (by omega)]
 
+/-! ## time-correlation functions (`CvModel/Acf.lean`) -/
+
+section ACF
+open Cv.Acf
+
+/-- the time origins for which a complete row of lags exists after `n` analysis steps (steps are numbered from 1; step 0
+    of the run only allocates): `t - (offset + length) * stride ≥ 1` -/
+def origins (p : Params) (n : Nat) : List Nat :=
+  (List.range (n + 1)).filter fun t => decide ((p.offset + p.length) * p.stride + 1 ≤ t)
+
+/-! ### helper lemmas: one step on a started state, the invariant carried by a run -/
+
+/-- `step` on a started state, field by field -/
+private theorem step_started (p : Params) (s : State ℝ) (own other : List ℝ) (hst : s.started = true) :
+    step p s own other =
+      { started := true
+        hist := s.hist.set s.cur ((own :: s.hist.getD s.cur []).take (p.length + p.offset))
+        cur := if s.cur + 1 ≥ p.stride then 0 else s.cur + 1
+        acf := if (s.hist.getD s.cur []).length ≥ p.length + p.offset then
+            List.zipWith (· + ·) s.acf (lagZero p own other ::
+              (((s.hist.getD s.cur []).drop p.offset).take p.length).map fun q => pairValue p q other)
+          else s.acf
+        nframes := if (s.hist.getD s.cur []).length ≥ p.length + p.offset then s.nframes + 1 else s.nframes } := by
+  obtain ⟨st, hist, cur, acf, nf⟩ := s
+  simp only at hst
+  subst hst
+  unfold step
+  simp only [Bool.not_true, Bool.false_eq_true, if_false]
+  split <;> rfl
+
+private theorem run_succ (p : Params) (own other : Nat → List ℝ) (n : Nat) :
+    run p ((List.range (n + 1)).map fun i => (own (i + 1), other (i + 1))) =
+      step p (run p ((List.range n).map fun i => (own (i + 1), other (i + 1)))) (own (n + 1)) (other (n + 1)) := by
+  simp [run, List.range_succ, List.foldl_append]
+
+private theorem origins_succ (p : Params) (n : Nat) :
+    origins p (n + 1) = origins p n ++ (if (p.offset + p.length) * p.stride + 1 ≤ n + 1 then [n + 1] else []) := by
+  unfold origins
+  rw [List.range_succ (n := n + 1), List.filter_append]
+  congr 1
+  by_cases h : (p.offset + p.length) * p.stride + 1 ≤ n + 1 <;> simp [h] <;> omega
+
+private theorem cons_take_range {β : Type} (f g : Nat → β) (x : β) (a K : Nat) (h0 : g 0 = x)
+    (hsucc : ∀ i, g (i + 1) = f i) :
+    (x :: (List.range (min a K)).map f).take K = (List.range (min (a + 1) K)).map g := by
+  have h1 : x :: (List.range (min a K)).map f = (List.range (min a K + 1)).map g := by
+    rw [List.range_succ_eq_map, List.map_cons, h0, List.map_map]
+    congr 1
+    apply List.map_congr_left
+    intro i _
+    simp [hsucc]
+  rw [h1, ← List.map_take, List.take_range]
+  congr 2
+  omega
+
+private theorem getD_zipWith_add (l1 l2 : List ℝ) (j : Nat) (h1 : j < l1.length) (h2 : j < l2.length) :
+    (List.zipWith (· + ·) l1 l2).getD j 0 = l1.getD j 0 + l2.getD j 0 := by
+  simp [List.getD_eq_getElem?_getD, h1, h2]
+
+/-- what holds after `n` analysis steps -/
+private structure Inv (p : Params) (own other : Nat → List ℝ) (n : Nat) (s : State ℝ) : Prop where
+  started : s.started = true
+  hlen : s.hist.length = p.stride
+  cur : s.cur = n % p.stride
+  alen : s.acf.length = p.length + 1
+  hist : ∀ m, n ≤ m → m < n + p.stride →
+    s.hist.getD (m % p.stride) [] =
+      (List.range (min (m / p.stride) (p.length + p.offset))).map fun i => own (m + 1 - (i + 1) * p.stride)
+  nfr : s.nframes = (origins p n).length
+  acf0 : s.acf.getD 0 0 = ((origins p n).map fun t => lagZero p (own t) (other t)).sum
+  acfj : ∀ j, 1 ≤ j → j ≤ p.length →
+    s.acf.getD j 0 = ((origins p n).map fun t => pairValue p (own (t - (p.offset + j) * p.stride)) (other t)).sum
+
+private theorem origins_zero_of (p : Params) : origins p 0 = [] := by
+  simp [origins]
+
+private theorem inv_init (p : Params) (own other : Nat → List ℝ) :
+    Inv p own other 0 (init p) where
+  started := rfl
+  hlen := by simp [init]
+  cur := by simp [init]
+  alen := by simp [init]
+  hist := by
+    intro m _ hm
+    have : m / p.stride = 0 := Nat.div_eq_of_lt (by omega)
+    simp [init, this, List.getD_eq_getElem?_getD, List.getElem?_replicate]
+    split <;> rfl
+  nfr := by simp [init, origins_zero_of p]
+  acf0 := by simp [init, origins_zero_of p, zero_lit]
+  acfj := by
+    intro j _ hj
+    simp [init, origins_zero_of p, zero_lit, List.getD_eq_getElem?_getD, List.getElem?_replicate]
+    split <;> rfl
+
+private theorem mod_succ_turn (n k : Nat) (hk : 0 < k) :
+    (if n % k + 1 ≥ k then 0 else n % k + 1) = (n + 1) % k := by
+  have hlt := Nat.mod_lt n hk
+  rw [← Nat.mod_add_mod n k 1]
+  split
+  · have : n % k + 1 = k := by omega
+    rw [this, Nat.mod_self]
+  · rw [Nat.mod_eq_of_lt (a := n % k + 1) (by omega)]
+
+private theorem same_turn (n m k : Nat) (hk : 0 < k) (h1 : n + 1 ≤ m) (h2 : m < n + 1 + k)
+    (h : m % k = n % k) : m = n + k := by
+  have hd : k ∣ m - n := (Nat.modEq_iff_dvd' (by omega)).mp h.symm
+  obtain ⟨c, hc⟩ := hd
+  rcases c with _ | _ | c
+  · omega
+  · omega
+  · have : k * (c + 1 + 1) = k * c + k + k := by ring
+    omega
+
+private theorem inv_step (p : Params) (hs : 0 < p.stride) (own other : Nat → List ℝ) (n : Nat) (s : State ℝ)
+    (h : Inv p own other n s) : Inv p own other (n + 1) (step p s (own (n + 1)) (other (n + 1))) := by
+  have hl : s.hist.getD s.cur [] =
+      (List.range (min (n / p.stride) (p.length + p.offset))).map fun i => own (n + 1 - (i + 1) * p.stride) := by
+    rw [h.cur]; exact h.hist n (le_refl _) (by omega)
+  have hguard : ((s.hist.getD s.cur []).length ≥ p.length + p.offset) ↔
+      (p.offset + p.length) * p.stride + 1 ≤ n + 1 := by
+    rw [hl, List.length_map, List.length_range, ge_iff_le, le_min_iff, Nat.le_div_iff_mul_le hs]
+    constructor
+    · intro ⟨h1, _⟩; rw [add_comm p.offset]; omega
+    · intro h1; rw [add_comm p.offset] at h1; exact ⟨by omega, le_refl _⟩
+  rw [step_started p s _ _ h.started]
+  simp only [hguard]
+  simp only [hl]
+  refine ⟨rfl, ?_, ?_, ?_, ?_, ?_, ?_, ?_⟩
+  · simp [h.hlen]
+  · simp only [h.cur]; exact mod_succ_turn n p.stride hs
+  · simp only
+    split
+    · rename_i hg
+      have : p.length + p.offset ≤ n / p.stride := by
+        rw [Nat.le_div_iff_mul_le hs, add_comm p.length]; omega
+      simp [h.alen, List.length_zipWith]
+      omega
+    · exact h.alen
+  · intro m hm1 hm2
+    by_cases hc : m % p.stride = n % p.stride
+    · have hm : m = n + p.stride := same_turn n m p.stride hs hm1 hm2 hc
+      subst hm
+      have hlt : s.cur < s.hist.length := by rw [h.cur, h.hlen]; exact Nat.mod_lt _ hs
+      rw [hc, ← h.cur, List.getD_eq_getElem?_getD, List.getElem?_set_self hlt, Option.getD_some,
+        Nat.add_div_right n hs]
+      apply cons_take_range
+      · congr 1; simp only [zero_add, one_mul]; omega
+      · intro i; congr 1
+        have : (i + 1 + 1) * p.stride = (i + 1) * p.stride + p.stride := by ring
+        omega
+    · have hne : s.cur ≠ m % p.stride := by rw [h.cur]; exact fun e => hc e.symm
+      have hm : m < n + p.stride := by
+        rcases Nat.lt_or_ge m (n + p.stride) with h1 | h1
+        · exact h1
+        · exfalso; apply hc
+          have : m = n + p.stride := by omega
+          rw [this, Nat.add_mod_right]
+      rw [List.getD_eq_getElem?_getD, List.getElem?_set_ne hne, ← List.getD_eq_getElem?_getD]
+      exact h.hist m (by omega) hm
+  · dsimp only
+    rw [origins_succ, List.length_append, h.nfr]
+    split <;> simp
+  · dsimp only
+    rw [origins_succ, List.map_append, List.sum_append, ← h.acf0]
+    split
+    · rw [getD_zipWith_add _ _ 0 (by rw [h.alen]; omega) (by simp)]
+      simp
+    · simp
+  · intro j hj1 hj2
+    dsimp only
+    rw [origins_succ, List.map_append, List.sum_append, ← h.acfj j hj1 hj2]
+    split
+    · rename_i hg
+      have hK : p.length + p.offset ≤ n / p.stride := by
+        rw [Nat.le_div_iff_mul_le hs, add_comm p.length]; omega
+      rw [getD_zipWith_add _ _ j (by rw [h.alen]; omega) (by simp [hK]; omega)]
+      obtain ⟨j', rfl⟩ : ∃ j', j = j' + 1 := ⟨j - 1, by omega⟩
+      have h1 : j' < p.length := by omega
+      simp [List.getD_eq_getElem?_getD, hK, h1]
+      rw [Nat.add_assoc]
+    · simp
+
+private theorem inv_run (p : Params) (hs : 0 < p.stride) (own other : Nat → List ℝ) (n : Nat) :
+    Inv p own other n (run p ((List.range n).map fun i => (own (i + 1), other (i + 1)))) := by
+  induction n with
+  | zero => exact inv_init p own other
+  | succ n ih => rw [run_succ]; exact inv_step p hs own other n _ ih
+
+/-- **textbook definition**: after any number of analysis steps, with `own t` / `other t` the values the two variables took
+    at step `t`, the number of accumulated rows is the number of available time origins, row 0 holds the sum of the lag-0
+    terms, and row `j` holds the sum over the origins of `Π(ξ_i(t - (offset + j)·stride), ξ_j(t))` -/
+theorem acf_textbook (p : Params) (hs : 0 < p.stride) (own other : Nat → List ℝ) (n : Nat) :
+    let s := run p ((List.range n).map fun i => (own (i + 1), other (i + 1)))
+    s.nframes = (origins p n).length ∧
+    s.acf.getD 0 0 = ((origins p n).map fun t => lagZero p (own t) (other t)).sum ∧
+    ∀ j, 1 ≤ j → j ≤ p.length →
+      s.acf.getD j 0 = ((origins p n).map fun t => pairValue p (own (t - (p.offset + j) * p.stride)) (other t)).sum := by
+  intro s
+  have h := inv_run p hs own other n
+  exact ⟨h.nfr, h.acf0, h.acfj⟩
+
+/-- what is written: each row is the accumulated sum divided by the number of rows accumulated, labelled with
+    `stride * (offset + j)`; nothing is written before the first complete row -/
+theorem acf_rows_average (p : Params) (s : State ℝ) (hn : p.normalize = false) (h0 : 0 < s.nframes) (j : Nat)
+    (hj : j < s.acf.length) :
+    (rows p s)[j]? = some (p.stride * (p.offset + j), s.acf.getD j 0 / (s.nframes : ℝ)) := by
+  have h0' : s.nframes ≠ 0 := by omega
+  simp [rows, h0', hn, hj]
+
+theorem acf_rows_empty (p : Params) (s : State ℝ) (h0 : s.nframes = 0) : rows p s = [] := by
+  simp [rows, h0]
+
+/-- normalised output: every row divided by row 0, so that the first row is 1 -/
+theorem acf_rows_normalised (p : Params) (s : State ℝ) (hn : p.normalize = true) (h0 : 0 < s.nframes) (j : Nat)
+    (hj : j < s.acf.length) (hz : s.acf.headD 0 ≠ 0) :
+    (rows p s)[j]? = some (p.stride * (p.offset + j), s.acf.getD j 0 / s.acf.headD 0) := by
+  have _ := hz
+  have h0' : s.nframes ≠ 0 := by omega
+  have hc : (s.nframes : ℝ) ≠ 0 := by exact_mod_cast h0'
+  simp only [rows, h0', hn, if_true, if_false, zero_lit, List.getElem?_map, List.getElem?_zipIdx,
+    List.getElem?_eq_getElem hj, Option.map_some, zero_add, List.getD_eq_getElem?_getD, Option.getD_some,
+    div_mul_cancel₀ _ hc]
+
+/-- the premises are satisfiable and the statement is not vacuous: length 1, stride 2, offset 0, five steps of a scalar
+    variable 1, 2, 3, 4, 5: origins 3, 4, 5; row 1 pairs each with the value two steps earlier -/
+example : origins { kind := .coor, vtype := .scalar, length := 1, stride := 2, offset := 0, normalize := false } 5 = [3, 4, 5] := by
+  decide
+
+end ACF
+
 /-! ## non-vacuity -/
 
 example : (cvLabels { value := true, velocity := true, extended := true }).map (·.1) = ["", "r_", "v_", "vr_"] := by
